@@ -108,7 +108,7 @@ impl Scenario for SubScenario {
 		mask
 	}
 	fn setup(&self) -> SubState {
-		let shared = Arc::new(Shared { rx_split: false,
+		let shared = Arc::new(Shared { rx_split: false, fail_ping: false,
 			sent: Default::default(),
 			send_calls: Default::default(),
 			fail_send_at: None,
@@ -576,7 +576,7 @@ impl Scenario for BackpressureScenario {
 		mask_bp
 	}
 	fn setup(&self) -> BpState {
-		let shared = Arc::new(Shared { rx_split: false,
+		let shared = Arc::new(Shared { rx_split: false, fail_ping: false,
 			sent: Default::default(),
 			send_calls: Default::default(),
 			fail_send_at: None,
@@ -737,6 +737,7 @@ impl Scenario for DupIdScenario {
 	fn setup(&self) -> DupState {
 		let shared = Arc::new(Shared {
 			rx_split: false,
+			fail_ping: false,
 			sent: Default::default(),
 			send_calls: Default::default(),
 			fail_send_at: None,
